@@ -46,6 +46,8 @@ let str_point = function
   | PtInsBeforeSend -> "ins:before_send"
   | PtGetAfterPush -> "get:after_push"
   | PtRemBeforeSend -> "rem:before_send"
+  | PtWaitAfterCheck -> "wait:after_check"
+  | PtClearAfterCheck -> "clear:after_check"
   | PtWaitAfterSend -> "wait:after_send"
   | PtWaitBeforeBlock -> "wait:before_block"
   | PtClearBeforeBlock -> "clear:before_block"
